@@ -45,7 +45,9 @@ func Corrupt(r *Rng, src []byte) ([]byte, string) {
 		return []byte(r.Pick(vocab)), "vocab-only"
 	}
 	pickSig := func() int { return sig[r.Intn(len(sig))] }
-	switch r.Intn(14) {
+	switch r.Intn(15) {
+	case 14: // the file as another tool would have encoded it
+		return Reencode(r, src)
 	case 0: // truncate at token boundary
 		i := pickSig()
 		return join(toks[:i]), "trunc-token"
@@ -127,6 +129,68 @@ func Corrupt(r *Rng, src []byte) ([]byte, string) {
 		}
 		return b, "random-bytes"
 	}
+}
+
+// Reencode returns src in another encoding or with an encoding mark: UTF-8 with a byte order
+// mark, UTF-16 (little/big endian, with and without mark), Latin-1 high bytes — whole, cut in the
+// middle of a code unit, or with one stray byte appended (text appended by a tool that assumed
+// another encoding).
+func Reencode(r *Rng, src []byte) ([]byte, string) {
+	utf16 := func(le, bom bool) []byte {
+		out := []byte{}
+		if bom {
+			if le {
+				out = append(out, 0xFF, 0xFE)
+			} else {
+				out = append(out, 0xFE, 0xFF)
+			}
+		}
+		for _, c := range string(src) {
+			if c > 0xFFFF {
+				c = '?'
+			}
+			if le {
+				out = append(out, byte(c), byte(c>>8))
+			} else {
+				out = append(out, byte(c>>8), byte(c))
+			}
+		}
+		return out
+	}
+	var b []byte
+	desc := ""
+	switch r.Intn(7) {
+	case 0:
+		b, desc = append([]byte("\xef\xbb\xbf"), src...), "enc:utf8-bom"
+	case 1:
+		b, desc = utf16(true, true), "enc:utf16le-bom"
+	case 2:
+		b, desc = utf16(false, true), "enc:utf16be-bom"
+	case 3:
+		b, desc = utf16(r.Chance(50), false), "enc:utf16-nobom"
+	case 4: // only the mark, then the text as it was
+		b, desc = append([]byte(r.Pick([]string{"\xff\xfe", "\xfe\xff", "\xff\xfe\x00\x00", "\x00\x00\xfe\xff", "\x2b\x2f\x76"})), src...), "enc:mark-only"
+	case 5: // Latin-1: some letters become single high bytes
+		b, desc = []byte(strings.NewReplacer("a", "\xe4", "o", "\xf6", "u", "\xfc").Replace(string(src))), "enc:latin1"
+	default:
+		b, desc = utf16(true, true), "enc:utf16le-bom"
+	}
+	switch r.Intn(4) {
+	case 0:
+		if len(b) > 2 {
+			b = b[:len(b)-1]
+			desc += "-cut"
+		}
+	case 1:
+		b = append(b, r.Pick([]string{"\n", "x", "\x00"})...)
+		desc += "+stray"
+	case 2:
+		if len(b) > 6 {
+			b = b[:2+r.Intn(len(b)-2)]
+			desc += "-trunc"
+		}
+	}
+	return b, desc
 }
 
 // HarvestCorpus collects program texts from the repository under test: string
